@@ -1,7 +1,7 @@
 (* C02 — property theorems about the model of the job scheduler (FV.C02.Model).
-   Statements only; proofs are in Inv, Steps*, Acc*, Reach, Order, Safe. *)
+   Statements only; proofs are in Inv, Steps*, Acc*, Reach, Order, Safe, Live3, Live. *)
 From Coq Require Import List NArith Bool.
-From FV.C02 Require Import Model Graph Inv Order Safe Reach NoPanic.
+From FV.C02 Require Import Model Graph Inv Order Safe Reach NoPanic LiveCheck Live Search.
 Import ListNotations.
 
 (* 1. Task-graph safety in all schedules.  For every job graph G (static jobs, dynamically added
@@ -46,6 +46,20 @@ Theorem completion_delivery_never_panics : forall G, wf_graph G -> forall st i,
 Proof. exact delivery_never_panics. Qed.
 Print Assumptions completion_delivery_never_panics.
 
+(* 5. Progress: 'unable to proceed' is unreachable.  For every job graph with unique ids accepted by the
+      decidable condition live_graph (for some rank rk: every dependency of a job, the creator of a
+      dynamically added job and the handler that settles a job created with Unknown access all rank
+      below it), and EVERY sequence of events the scheduler admits: unless the build has finished, some
+      job is running or some job can be launched - the condition under which Workload::exec returns
+      Error::UnableToProceed never holds. *)
+Theorem never_unable_to_proceed : forall G rk, wf_graphb G = true -> live_graph G rk = true ->
+  forall evs st, run G (init G) evs = Some st -> err st = false ->
+  pending st = []
+  \/ (exists i pj, lookup i (pending st) = Some pj /\ prun pj = true)
+  \/ launchable st <> [].
+Proof. intros G rk Hw Hl evs st. exact (progress_in_all_schedules G rk evs st (wf_graphb_sound G Hw) Hl). Qed.
+Print Assumptions never_unable_to_proceed.
+
 (* The hypotheses are satisfiable: a small graph with a gate (job 2 starts Unknown and is rewritten by
    the handler of job 0, which also adds job 3); job 2 reads what job 3 writes. *)
 Example tiny : graph :=
@@ -68,3 +82,16 @@ Example ungated_bad_schedule :
   exists st, run ungated (init ungated) [Launch 0; WFinish 0; Launch 2] = Some st
              /\ err st = false /\ started st 2 /\ ~ In 3%N (g_wfin st).
 Proof. eexists. split; [vm_compute; reflexivity|]. split; [reflexivity|]. split; [left; cbn; auto|]. cbn. intuition discriminate. Qed.
+
+(* progress: the gated graph passes the progress condition with its launch order as rank ... *)
+Example tiny_live : wf_graphb tiny = true /\ live_instance tiny [0; 1; 3; 2] = true.
+Proof. vm_compute. split; reflexivity. Qed.
+(* ... and a graph whose gate is never opened (nobody rewrites job 2) is rejected, with a stuck schedule *)
+Example gate_forgotten : graph :=
+  mkGraph [mkJob 0 0 ANone []; mkJob 2 2 AUnknown []] [(0, [Add (mkJob 3 3 ANone [])])].
+Example gate_forgotten_rejected : live_instance gate_forgotten [0; 3; 2] = false.
+Proof. vm_compute. reflexivity. Qed.
+Example gate_forgotten_stuck :
+  exists sched st, stuck_schedule gate_forgotten = Some sched /\ run gate_forgotten (init gate_forgotten) sched = Some st
+                   /\ is_stuck st = true.   (* no panic, jobs pending, none running, none launchable *)
+Proof. eexists. eexists. split; [vm_compute; reflexivity|]. split; [vm_compute; reflexivity|]. vm_compute. reflexivity. Qed.
